@@ -85,6 +85,8 @@ def generate(ck):
                 Sw = 0.1
             if t["kind"] == "synthetic" and t["seed"] % 4 == 2:
                 t["family"] = "condensate"  # rows with So exactly 0 whose gas carries vaporised oil (no draw consumed)
+            if t["kind"] == "synthetic" and t["seed"] % 4 == 1:
+                t["family"] = "rv-onset"  # Rv exactly 0 over the lower part of the table
             descs.append(
                 {
                     "kind": "table",
